@@ -2,6 +2,7 @@ mod c01;
 mod c03;
 mod c04;
 mod c05;
+mod c06;
 mod c10;
 mod c14;
 mod hookutil;
@@ -87,6 +88,8 @@ fn real_main(args: Vec<String>) -> i32 {
                 "C03" => c03::run(&ctx),
                 "C04" => c04::run(&ctx),
                 "C05" => c05::run(&ctx),
+                "C06" => c06::run(&ctx, false),
+                "C07" => c06::run(&ctx, true),
                 "C10" => c10::run(&ctx),
                 "C14" => c14::run(&ctx),
                 _ => Err(format!("no check for {}", prop)),
